@@ -942,8 +942,21 @@ class Interp(object):
             return v if isinstance(op, ast.In) else not v
         if isinstance(op, (ast.Lt, ast.LtE, ast.Gt, ast.GtE)):
             num = (int, float)
+            table = {ast.Lt: lambda a, b: a < b, ast.LtE: lambda a, b: a <= b, ast.Gt: lambda a, b: a > b, ast.GtE: lambda a, b: a >= b}
             if isinstance(l, num) and isinstance(r, num):
-                return {ast.Lt: l < r, ast.LtE: l <= r, ast.Gt: l > r, ast.GtE: l >= r}[type(op)]
+                return table[type(op)](l, r)
+            for t in (str, bytes):
+                if isinstance(l, t) and isinstance(r, t):
+                    return table[type(op)](l, r)
+            if isinstance(l, (list, tuple)) and type(l) is type(r) and not _has_abstract(l) and not _has_abstract(r):
+                try:
+                    return table[type(op)](l, r)
+                except TypeError:
+                    raise Raise('TypeError', None, 'ordering of unorderable values')
+            concrete = (int, float, str, bytes, type(None))
+            if isinstance(l, concrete) and isinstance(r, concrete):
+                # None < 1, 'a' < 1, ...: Python 3 refuses to order values of different kinds
+                raise Raise('TypeError', None, 'ordering of %s and %s' % (type(l).__name__, type(r).__name__))
             return None
         if isinstance(op, (ast.Is, ast.IsNot)):
             if isinstance(l, (Top, Sym)) or isinstance(r, (Top, Sym)):
